@@ -22,7 +22,7 @@ ASSUMPTIONS = ["axis permutation is asserted for isotropic configurations only; 
                "float64; tolerance 1e-10 of the state scale (translation of a compiled FFT pipeline is exact only to rounding)"]
 AMBIENT = True            # thorough tier: the repository's own test-suite runs under this property's general monitor (rv/ambient.py)
 REQUIRED_AMBIENT = {'ambient_translation': 200}
-TIMEOUT = {"quick": 1200, "thorough": 3200}
+TIMEOUT = {"quick": 2400, "thorough": 7200}
 TOL = 2e-10
 
 KOLMO_AXES = {"stepper.KolmogorovFlowVorticity": (0,), "stepper.KolmogorovFlowVelocity": (0, 2)}
